@@ -7,6 +7,7 @@ types and containers, and the equality of decoding, are carried by the correspon
 -/
 import Spp.Model.XmlWrite
 import Spp.Lemmas.Cal
+import Spp.Lemmas.Hex
 namespace Spp.C09
 open Spp
 
@@ -890,8 +891,12 @@ theorem binary_encoding_roundtrip (hI : IntRoundTrip) (hV : FValRoundTrip) (u : 
 
 /-! ### string encodings (single-byte codecs, no termination character) -/
 
-/-- String encodings in the regime the theorem covers: a single-byte codec (so no byte order is recorded), no
-    termination character, a leading size that is absent or non-zero, and exactly one of the three size forms. -/
+/-- A termination character the constructor accepts: non-empty bytes that decode to exactly one character. -/
+def TermOK (enc : String) (t : Bytes) : Prop := t ≠ [] ∧ ∃ s, decodeText enc t = some s ∧ s.length = 1
+
+/-- String encodings in the regime the theorem covers: a single-byte codec (so no byte order is recorded), either a
+    termination character (one character of the codec) or a leading size that is absent or non-zero, and exactly one of the three size forms
+    (fixed, taken from a parameter, looked up from criteria). -/
 inductive StrWF : StrEnc → Prop
   | fixed (enc : String) (henc : enc ∈ singleByteEncodings) (n : Int) (hn : n ≠ 0) (lead : Option Int)
       (hl : lead ≠ some 0) :
@@ -900,6 +905,23 @@ inductive StrWF : StrEnc → Prop
   | dynamic (enc : String) (henc : enc ∈ singleByteEncodings) (r : String) (hr : r ≠ "") (uc : Bool)
       (adj : Option LinAdj) (lead : Option Int) (hl : lead ≠ some 0) :
       StrWF { encoding := enc, fixedLength := none, dynRef := some r, lookup := none, useCal := uc, adjuster := adj,
+              termChar := none, leadingSize := lead, byteOrder := none }
+  | fixedTerm (enc : String) (henc : enc ∈ singleByteEncodings) (n : Int) (hn : n ≠ 0) (t : Bytes) (ht : TermOK enc t) :
+      StrWF { encoding := enc, fixedLength := some n, dynRef := none, lookup := none, useCal := true, adjuster := none,
+              termChar := some t, leadingSize := none, byteOrder := none }
+  | dynamicTerm (enc : String) (henc : enc ∈ singleByteEncodings) (r : String) (hr : r ≠ "") (uc : Bool)
+      (adj : Option LinAdj) (t : Bytes) (ht : TermOK enc t) :
+      StrWF { encoding := enc, fixedLength := none, dynRef := some r, lookup := none, useCal := uc, adjuster := adj,
+              termChar := some t, leadingSize := none, byteOrder := none }
+  | lookupTerm (enc : String) (henc : enc ∈ singleByteEncodings) (l : List DiscreteLookup) (hl : l ≠ [])
+      (hwf : ∀ d ∈ l, (∃ q, d.value = .flt (.fin q)) ∧ d.criteria ≠ [] ∧ ∀ c ∈ d.criteria, (lookupOp c.op).isSome = true)
+      (t : Bytes) (ht : TermOK enc t) :
+      StrWF { encoding := enc, fixedLength := none, dynRef := none, lookup := some l, useCal := true, adjuster := none,
+              termChar := some t, leadingSize := none, byteOrder := none }
+  | lookup (enc : String) (henc : enc ∈ singleByteEncodings) (l : List DiscreteLookup) (hl : l ≠ [])
+      (hwf : ∀ d ∈ l, (∃ q, d.value = .flt (.fin q)) ∧ d.criteria ≠ [] ∧ ∀ c ∈ d.criteria, (lookupOp c.op).isSome = true)
+      (lead : Option Int) (hlead : lead ≠ some 0) :
+      StrWF { encoding := enc, fixedLength := none, dynRef := none, lookup := some l, useCal := true, adjuster := none,
               termChar := none, leadingSize := lead, byteOrder := none }
 
 theorem leading_cases (lead : Option Int) (hl : lead ≠ some 0) :
@@ -911,11 +933,190 @@ theorem leading_cases (lead : Option Int) (hl : lead ≠ some 0) :
     have hk : k ≠ 0 := fun h => hl (by rw [h])
     exact ⟨k, rfl, hk, by simpa [optTruthy] using hk⟩
 
-/-- A string encoding of that regime — codec, fixed or referenced size with its selector and adjustment, leading
-    size — survives write → load. -/
-theorem string_encoding_roundtrip (hI : IntRoundTrip) (u : Option String) (e : StrEnc) (hwf : StrWF e) (x : XmlNode)
-    (hw : writeEncoding u (.str e) = .ok x) : loadStringEncoding u x = .ok (.str e) := by
+theorem singleByte_facts (enc : String) (h : enc ∈ singleByteEncodings) :
+    singleByteEncodings.contains enc = true ∧ SUPPORTED_STRING_ENCODINGS.contains enc = true := by
+  simp only [singleByteEncodings, List.mem_cons, List.mem_nil_iff, or_false] at h
+  rcases h with rfl | rfl | rfl | rfl <;> exact ⟨by decide, by decide⟩
+
+/-- A string encoding whose size is looked up from criteria. -/
+def lookupStr (enc : String) (l : List DiscreteLookup) (lead : Option Int) : StrEnc :=
+  { encoding := enc, fixedLength := none, dynRef := none, lookup := some l, useCal := true, adjuster := none,
+    termChar := none, leadingSize := lead, byteOrder := none }
+
+/-- String encoding whose size is looked up from criteria (single-byte codec, no termination character). -/
+theorem string_lookup_roundtrip (hI : IntRoundTrip) (hV : FValRoundTrip) (u : Option String) (enc : String)
+    (henc : enc ∈ singleByteEncodings) (l : List DiscreteLookup) (hl : l ≠ [])
+    (hwf : ∀ d ∈ l, (∃ q, d.value = .flt (.fin q)) ∧ d.criteria ≠ [] ∧ ∀ c ∈ d.criteria, (lookupOp c.op).isSome = true)
+    (lead : Option Int) (hlead : lead ≠ some 0) (x : XmlNode)
+    (hw : writeEncoding u (.str (lookupStr enc l lead)) = .ok x) :
+    loadStringEncoding u x = .ok (.str (lookupStr enc l lead)) := by
+  unfold lookupStr at hw ⊢
+  obtain ⟨hsb, hsup⟩ := singleByte_facts enc henc
+  have hsupm : enc ∈ SUPPORTED_STRING_ENCODINGS := by simpa using hsup
+  have hne16 : (enc == "UTF-16" || enc == "UTF-32") = false := by
+    simp only [singleByteEncodings, List.mem_cons, List.mem_nil_iff, or_false] at henc
+    rcases henc with rfl | rfl | rfl | rfl <;> decide
+  have hl' : l.isEmpty = false := by cases l <;> simp_all
+  simp only [writeEncoding, optTruthy, strTruthy, listTruthy, hl', Bool.not_false, Bool.false_eq_true, if_true, if_false,
+    bind, Except.bind, pure, Except.pure, Option.getD, hne16, List.append_nil] at hw
+  cases hm : l.mapM (writeDiscreteLookup u) with
+  | error err => simp [hm] at hw
+  | ok xs =>
+    simp only [hm] at hw
+    have hel := mapM_all (writeDiscreteLookup u) (fun b => b.isElem = true) l
+      (fun d _ b hb => writeDiscreteLookup_isElem u d b hb) xs hm
+    have hrt := mapM_roundtrip (writeDiscreteLookup u) (loadDiscreteLookup u) l
+      (fun d hd b hb => by
+        obtain ⟨⟨q, hq⟩, hne, hop⟩ := hwf d hd
+        exact discrete_lookup_roundtrip hV u d q hq hne hop b hb) xs hm
+    have he : (mkEl u "DiscreteLookupList" [] xs).elems = xs := by
+      simp only [mkEl, XmlNode.elems, XmlNode.kids]
+      rw [List.filter_eq_self]; exact hel
+    rcases leading_cases lead hlead with ⟨rfl, hlt⟩ | ⟨k, rfl, hk, hlt⟩
+    · simp only [mkEl, if_false, Bool.false_eq_true, List.append_nil] at hw
+      injection hw with hw; subst hw
+      simp only [mkEl] at he
+      simp [loadStringEncoding, loadStrSpec, strSizeEl, loadStrTail, mkStrEnc, findFirst, findAll, XmlNode.kids,
+        Step.matches, step, XmlNode.isElem, XmlNode.tag, XmlNode.ns, XmlNode.attr?, XmlNode.attrs, XmlNode.text,
+        optTruthy, strTruthy, listTruthy, hl', hsb, hsup, henc, hsupm, he, hrt, bind, Except.bind, pure, Except.pure]
+    · have hk' : (k != 0) = true := by simpa using hk
+      have hks' : readInt k.repr = .ok k := hI k
+      simp only [mkEl, hk', if_true, List.append_nil] at hw
+      injection hw with hw; subst hw
+      simp only [mkEl] at he
+      simp [loadStringEncoding, loadStrSpec, strSizeEl, loadStrTail, mkStrEnc, findFirst, findAll, XmlNode.kids,
+        Step.matches, step, XmlNode.isElem, XmlNode.tag, XmlNode.ns, XmlNode.attr?, XmlNode.attr!, XmlNode.attrs,
+        XmlNode.text, optTruthy, strTruthy, listTruthy, hl', hk', hks', hsb, hsup, henc, hsupm, he, hrt, bind, Except.bind, pure,
+        Except.pure]
+def fixedTermStr (enc : String) (n : Int) (t : Bytes) : StrEnc :=
+  { encoding := enc, fixedLength := some n, dynRef := none, lookup := none, useCal := true, adjuster := none,
+    termChar := some t, leadingSize := none, byteOrder := none }
+
+theorem string_fixed_term_roundtrip (hI : IntRoundTrip) (u : Option String) (enc : String)
+    (henc : enc ∈ singleByteEncodings) (n : Int) (hn : n ≠ 0) (t : Bytes) (ht : TermOK enc t) (x : XmlNode)
+    (hw : writeEncoding u (.str (fixedTermStr enc n t)) = .ok x) :
+    loadStringEncoding u x = .ok (.str (fixedTermStr enc n t)) := by
+  unfold fixedTermStr at hw ⊢
+  obtain ⟨hsb, hsup⟩ := singleByte_facts enc henc
+  have hsupm : enc ∈ SUPPORTED_STRING_ENCODINGS := by simpa using hsup
+  have hne16 : (enc == "UTF-16" || enc == "UTF-32") = false := by
+    simp only [singleByteEncodings, List.mem_cons, List.mem_nil_iff, or_false] at henc
+    rcases henc with rfl | rfl | rfl | rfl <;> decide
+  have hne16a : ¬ (enc = "UTF-16") ∧ ¬ (enc = "UTF-32") := by
+    simp only [Bool.or_eq_false_iff, beq_eq_false_iff_ne, ne_eq] at hne16; exact hne16
+  obtain ⟨htne, s, hdec, hlen⟩ := ht
+  have hte : t.isEmpty = false := by cases t <;> simp_all
+  have hn' : (n != 0) = true := by simpa using hn
+  have hsz' : readInt n.repr = .ok n := hI n
+  have hhex := hexToBytes_bytesToHex t
+  have hhne := bytesToHex_nonempty t htne
+  have hhne' : ¬ (bytesToHex t = "") := by
+    intro e; rw [e] at hhne; simp at hhne
+  simp [writeEncoding, optTruthy, hn', hte, hne16, pure, Except.pure, bind, Except.bind, mkEl] at hw
+  subst hw
+  simp [loadStringEncoding, loadStrSpec, strSizeEl, loadStrTail, mkStrEnc, findFirst, findAll, XmlNode.kids,
+    Step.matches, step, XmlNode.isElem, XmlNode.tag, XmlNode.ns, XmlNode.attr?, XmlNode.attrs, XmlNode.text,
+    readIntOpt, hsz', optTruthy, strTruthy, listTruthy, hn', henc, hsupm, hhex, hhne, hhne', hne16a.1, hne16a.2, hdec, hlen,
+    bind, Except.bind, pure, Except.pure]
+
+def dynTermStr (enc : String) (r : String) (uc : Bool) (adj : Option LinAdj) (t : Bytes) : StrEnc :=
+  { encoding := enc, fixedLength := none, dynRef := some r, lookup := none, useCal := uc, adjuster := adj,
+    termChar := some t, leadingSize := none, byteOrder := none }
+
+theorem string_dyn_term_roundtrip (hI : IntRoundTrip) (u : Option String) (enc : String)
+    (henc : enc ∈ singleByteEncodings) (r : String) (hr : r ≠ "") (uc : Bool) (adj : Option LinAdj) (t : Bytes)
+    (ht : TermOK enc t) (x : XmlNode) (hw : writeEncoding u (.str (dynTermStr enc r uc adj t)) = .ok x) :
+    loadStringEncoding u x = .ok (.str (dynTermStr enc r uc adj t)) := by
+  unfold dynTermStr at hw ⊢
+  obtain ⟨hsb, hsup⟩ := singleByte_facts enc henc
+  have hsupm : enc ∈ SUPPORTED_STRING_ENCODINGS := by simpa using hsup
+  have hne16 : (enc == "UTF-16" || enc == "UTF-32") = false := by
+    simp only [singleByteEncodings, List.mem_cons, List.mem_nil_iff, or_false] at henc
+    rcases henc with rfl | rfl | rfl | rfl <;> decide
+  have hne16a : ¬ (enc = "UTF-16") ∧ ¬ (enc = "UTF-32") := by
+    simp only [Bool.or_eq_false_iff, beq_eq_false_iff_ne, ne_eq] at hne16; exact hne16
+  obtain ⟨htne, s, hdec, hlen⟩ := ht
+  have hte : t.isEmpty = false := by cases t <;> simp_all
+  have hr' : r.isEmpty = false := by
+    cases hh : r.isEmpty
+    · rfl
+    · exact absurd (String.isEmpty_iff.mp hh) hr
+  have hhex := hexToBytes_bytesToHex t
+  have hhne := bytesToHex_nonempty t htne
+  cases adj with
+  | none =>
+    simp [writeEncoding, optTruthy, strTruthy, hr', hte, hne16, writeParamInstanceRef, pure, Except.pure, bind, Except.bind,
+      mkEl] at hw
+    subst hw
+    simp [loadStringEncoding, loadStrSpec, strSizeEl, loadStrTail, loadDynamicValue, loadLinearAdjuster, mkStrEnc,
+      findFirst, findAll, XmlNode.kids, Step.matches, step, XmlNode.isElem, XmlNode.tag, XmlNode.ns, XmlNode.attr?,
+      XmlNode.attr!, XmlNode.attrs, XmlNode.text, isTrueWord_pyBool, optTruthy, strTruthy, listTruthy, hr', henc, hsupm,
+      hhex, hhne, hne16a.1, hne16a.2, hdec, hlen, bind, Except.bind, pure, Except.pure]
+  | some a =>
+    have h1 : readInt a.slope.repr = .ok a.slope := hI a.slope
+    have h2 : readInt a.intercept.repr = .ok a.intercept := hI a.intercept
+    simp [writeEncoding, optTruthy, strTruthy, hr', hte, hne16, writeParamInstanceRef, writeLinAdj, showInt, pure,
+      Except.pure, bind, Except.bind, mkEl] at hw
+    subst hw
+    simp [loadStringEncoding, loadStrSpec, strSizeEl, loadStrTail, loadDynamicValue, loadLinearAdjuster, mkStrEnc,
+      findFirst, findAll, XmlNode.kids, Step.matches, step, XmlNode.isElem, XmlNode.tag, XmlNode.ns, XmlNode.attr?,
+      XmlNode.attr!, XmlNode.attrs, XmlNode.text, isTrueWord_pyBool, optTruthy, strTruthy, listTruthy, hr', henc, hsupm,
+      hhex, hhne, hne16a.1, hne16a.2, hdec, hlen, h1, h2, bind, Except.bind, pure, Except.pure]
+
+def lookupTermStr (enc : String) (l : List DiscreteLookup) (t : Bytes) : StrEnc :=
+  { encoding := enc, fixedLength := none, dynRef := none, lookup := some l, useCal := true, adjuster := none,
+    termChar := some t, leadingSize := none, byteOrder := none }
+
+theorem string_lookup_term_roundtrip (hV : FValRoundTrip) (u : Option String) (enc : String)
+    (henc : enc ∈ singleByteEncodings) (l : List DiscreteLookup) (hl : l ≠ [])
+    (hwf : ∀ d ∈ l, (∃ q, d.value = .flt (.fin q)) ∧ d.criteria ≠ [] ∧ ∀ c ∈ d.criteria, (lookupOp c.op).isSome = true)
+    (t : Bytes) (ht : TermOK enc t) (x : XmlNode)
+    (hw : writeEncoding u (.str (lookupTermStr enc l t)) = .ok x) :
+    loadStringEncoding u x = .ok (.str (lookupTermStr enc l t)) := by
+  unfold lookupTermStr at hw ⊢
+  obtain ⟨hsb, hsup⟩ := singleByte_facts enc henc
+  have hsupm : enc ∈ SUPPORTED_STRING_ENCODINGS := by simpa using hsup
+  have hne16 : (enc == "UTF-16" || enc == "UTF-32") = false := by
+    simp only [singleByteEncodings, List.mem_cons, List.mem_nil_iff, or_false] at henc
+    rcases henc with rfl | rfl | rfl | rfl <;> decide
+  have hne16a : ¬ (enc = "UTF-16") ∧ ¬ (enc = "UTF-32") := by
+    simp only [Bool.or_eq_false_iff, beq_eq_false_iff_ne, ne_eq] at hne16; exact hne16
+  obtain ⟨htne, s, hdec, hlen⟩ := ht
+  have hte : t.isEmpty = false := by cases t <;> simp_all
+  have hhex := hexToBytes_bytesToHex t
+  have hhne := bytesToHex_nonempty t htne
+  have hl' : l.isEmpty = false := by cases l <;> simp_all
+  simp only [writeEncoding, optTruthy, strTruthy, listTruthy, hl', hte, Bool.not_false, Bool.false_eq_true, if_true, if_false,
+    bind, Except.bind, pure, Except.pure, Option.getD, hne16, List.append_nil, List.nil_append] at hw
+  cases hm : l.mapM (writeDiscreteLookup u) with
+  | error err => simp [hm] at hw
+  | ok xs =>
+    simp only [hm] at hw
+    have hel := mapM_all (writeDiscreteLookup u) (fun b => b.isElem = true) l
+      (fun d _ b hb => writeDiscreteLookup_isElem u d b hb) xs hm
+    have hrt := mapM_roundtrip (writeDiscreteLookup u) (loadDiscreteLookup u) l
+      (fun d hd b hb => by
+        obtain ⟨⟨q, hq⟩, hne, hop⟩ := hwf d hd
+        exact discrete_lookup_roundtrip hV u d q hq hne hop b hb) xs hm
+    have he : (XmlNode.elem u "DiscreteLookupList" [] none xs).elems = xs := by
+      simp only [XmlNode.elems, XmlNode.kids]
+      rw [List.filter_eq_self]; exact hel
+    simp only [mkEl] at hw
+    injection hw with hw; subst hw
+    simp [loadStringEncoding, loadStrSpec, strSizeEl, loadStrTail, mkStrEnc, findFirst, findAll, XmlNode.kids,
+      Step.matches, step, XmlNode.isElem, XmlNode.tag, XmlNode.ns, XmlNode.attr?, XmlNode.attrs, XmlNode.text,
+      optTruthy, strTruthy, listTruthy, hl', henc, hsupm, he, hrt, hhex, hhne, hne16a.1, hne16a.2, hdec, hlen, bind,
+      Except.bind, pure, Except.pure]
+
+/-- A string encoding of that regime — codec, fixed, referenced (with its selector and adjustment) or looked-up size,
+    leading size — survives write → load. -/
+theorem string_encoding_roundtrip (hI : IntRoundTrip) (hV : FValRoundTrip) (u : Option String) (e : StrEnc) (hwf : StrWF e)
+    (x : XmlNode) (hw : writeEncoding u (.str e) = .ok x) : loadStringEncoding u x = .ok (.str e) := by
   cases hwf with
+  | lookup enc henc l hl hwf lead hlead => exact string_lookup_roundtrip hI hV u enc henc l hl hwf lead hlead x hw
+  | fixedTerm enc henc n hn t ht => exact string_fixed_term_roundtrip hI u enc henc n hn t ht x hw
+  | dynamicTerm enc henc r hr uc adj t ht => exact string_dyn_term_roundtrip hI u enc henc r hr uc adj t ht x hw
+  | lookupTerm enc henc l hl hwf t ht => exact string_lookup_term_roundtrip hV u enc henc l hl hwf t ht x hw
   | fixed enc henc n hn lead hl =>
     have hn' : (n != 0) = true := by simpa using hn
     have hsz : readInt (toString n) = .ok n := hI n
